@@ -67,6 +67,19 @@ claim("C17",
   "Handlers registered while shutdown runs and general deadlock freedom are not decided. Known finding D10 listed in known_findings.txt.",
   "DESIGN.md §3 C17")
 
+
+claim("C07",
+  "wire-integer taint analysis over SSA with guarded-reachability sanitisers + recursive minimum-consumption summaries + call-graph panic reachability",
+  "Decides the clause visible in the code's shape: no allocation size or loop bound comes from an integer read off the wire without a constant (or existing-capacity) upper bound, and none that went through a signed type reaches a panicking sink without a lower bound; loops bounded by a wire count must consume at least one byte per iteration (callee summaries computed from ReadN constant lengths). Plus: no explicit panic reachable from a decoder, checked arities of parallel slices in the signature node builders, unchecked assertions confined to confirmed sites.",
+  "Absence of implicit panics and hangs in general, and time/memory proportional to input, are not decided (need execution). Known findings D8 (generated decoders allocate from the wire count, 16 sites) and D16 (varReader loops over zero-width elements) are listed in known_findings.txt.",
+  "DESIGN.md §3 C07")
+
+claim("C08",
+  "SSA error-flow over the computed decoder set + ownership of the reader (closed list of consumers) + ReadN completeness by guarded reachability",
+  "Decides (a) ReadN returns nil only when length bytes arrived, accumulates exactly what Read returned, and every ReadN call passes the length of the buffer it fills; (b) for every decoder call inside the decoder set (computed by reader-argument flow from ReadN) the error is used and every path on which it may be non-nil returns a non-nil error derived from it; (c) readers are consumed only through the repository's decoders (no type-asserted fast paths, io.Copy/LimitReader/bufio). Together: a strict prefix makes some ReadN fall short and that shortfall reaches the caller.",
+  "Exact consumption of valid encodings is taken from the shape rules of C01–C03; io.Reader contract trusted.",
+  "DESIGN.md §3 C08")
+
 _pending = "check not implemented yet in this revision of /verif (design in DESIGN.md §3); not claimed until its rules exist and are validated"
 for pid in ["C01","C02","C03","C04","C06","C07","C08","C09","C10","C11","C12","C13","C14","C15","C16","C17","C18","C20"]:
     if pid not in CLAIMED:
